@@ -19,9 +19,14 @@ vars == <<l, bad>>
 V(id, verdict, dev, why) == [id |-> id, verdict |-> verdict, dev |-> dev, why |-> why]
 SeqSet(q) == {q[n] : n \in 1..Len(q)}
 
+Addr(r, k) == AddrOf(r.prog, r.base, k)
+EndAddr(r) == Addr(r, Len(r.prog)) + Size(r.prog[Len(r.prog)])
+(* requests outside the protocol's happy path that every client can produce; each must be answered (or ignored), none may end the session *)
+Malformed == {"unknown_command", "variables_reference", "setbps_no_path", "setbps_line0", "completions_end", "event_message"}
 (* ======================================= tier 1 ======================================= *)
 T0 == [mode |-> "init", bps |-> {}, stable |-> {}, resume |-> 1, exempt |-> FALSE, at |-> 0, credit |-> FALSE,
-       inflight |-> 0, cause |-> "", pend |-> [kind |-> "", from |-> 0], first |-> FALSE, line |-> 0, out |-> <<>>]
+       inflight |-> 0, cause |-> "", pend |-> [kind |-> "", from |-> 0], first |-> FALSE, line |-> 0, out |-> <<>>,
+       files |-> {}, lastFile |-> 0]
 
 LineOf(r, R, j) == r.lines[R[j].i]
 Executed(t, j) == IF t.resume = 0 THEN {} ELSE {k \in t.resume..(j - 1) : ~(t.exempt /\ k = t.resume)}
@@ -33,6 +38,14 @@ EvalOf(c) == c.y * 16 + c.x        \* the expression the driver evaluates: cpu.y
 
 Viol(r, t, why) == [t EXCEPT !.out = Append(@, V(r.id, "violation", "", why))]
 Devi(r, t, dev, why) == [t EXCEPT !.out = Append(@, V(r.id, "deviation", dev, why))]
+(* source lines of the second file are numbered 1000 + line (the harness' table); setBreakpoints works per file *)
+FileOfLine(ln) == IF ln >= 1000 THEN 1 ELSE 0
+(* a skipped breakpoint: the recorded witness is a breakpoint of one file that was dropped when another file's were set *)
+SkipV(r, R, t, tn, sk, what) ==
+  LET k == CHOOSE k \in sk : TRUE IN
+  IF t.files = {0, 1} /\ \A m \in sk : FileOfLine(LineOf(r, R, m)) # t.lastFile
+  THEN Devi(r, tn, "SetBreakpointsForgetsOtherFiles", "the breakpoint on line " \o ToString(LineOf(r, R, k)) \o " was dropped when the breakpoints of the other file were set: " \o what)
+  ELSE Viol(r, tn, "NoSkippedBreakpoint: " \o what \o " (run index " \o ToString(k) \o ")")
 
 (* first snapshot after a stopped event: is the machine where the property says it must be? *)
 FirstSnap(r, R, t, o, j) ==
@@ -59,7 +72,7 @@ FirstSnap(r, R, t, o, j) ==
      ELSE Viol(r, t1, "StepExact: after " \o t.pend.kind \o " from run index " \o ToString(t.pend.from) \o " the machine is at run index " \o ToString(j) \o ", frame line " \o ToString(o.line))
   ELSE
      LET sk == Skipped(r, R, t, j)
-         t2 == IF sk # {} THEN Viol(r, t1, "NoSkippedBreakpoint: executed run index " \o ToString(CHOOSE k \in sk : TRUE) \o " at a breakpoint line without stopping") ELSE t1 IN
+         t2 == IF sk # {} THEN SkipV(r, R, t, t1, sk, "an instruction at a breakpoint line was executed without stopping") ELSE t1 IN
      IF j < t.resume THEN Viol(r, t1, "machine is behind the point it was resumed from")
      ELSE IF here THEN t2
      ELSE IF t.cause = "pause" /\ \E k \in t.resume..(j - 1) : LineOf(r, R, k) = o.line
@@ -89,7 +102,14 @@ Snap(r, R, t, o) ==
             IF <<c.a, c.x, c.y>> # <<o.a, o.x, o.y>> THEN Viol(r, [t EXCEPT !.first = FALSE], "registers are not those of the instant CYC names")
             ELSE IF o.ev # EvalOf(c) /\ ~(t.inflight > 0 /\ o.ev = EvalOf(R[Succ(R, j)]))
                  THEN Viol(r, [t EXCEPT !.first = FALSE], "evaluate does not reflect the registers of the same instant")
-            ELSE IF t.first THEN FirstSnap(r, R, t, o, j) ELSE LaterSnap(r, R, t, o, j)
+            ELSE IF o.star # Addr(r, c.i) /\ o.star # EndAddr(r) /\ ~(t.inflight > 0 /\ o.star = Addr(r, R[Succ(R, j)].i))
+                 THEN Viol(r, [t EXCEPT !.first = FALSE], "evaluate `*` = " \o ToString(o.star) \o " is not the program counter " \o ToString(Addr(r, c.i)) \o " of the stop")
+            ELSE IF r.linesDefault /\ o.line + 1 = LineOf(r, R, j)
+                 THEN Devi(r, [t EXCEPT !.first = FALSE, !.mode = "terminated"], "LinesStartAt1DefaultsToFalse", "initialize without linesStartAt1: the frame is reported 0-based (line " \o ToString(o.line) \o " for source line " \o ToString(LineOf(r, R, j)) \o ")")
+            ELSE LET ts == IF o.star # Addr(r, c.i) /\ o.star = EndAddr(r)        \* recorded witness: `*` = where assembly ended; judging goes on
+                               THEN Devi(r, t, "EvaluateStarIsNotPc", "evaluate `*` answers " \o ToString(o.star) \o " (where assembly ended), the machine is stopped at " \o ToString(Addr(r, c.i)))
+                               ELSE t IN
+                 IF t.first THEN FirstSnap(r, R, ts, o, j) ELSE LaterSnap(r, R, ts, o, j)
 
 (* Registers read while the machine runs freely (the client saw no stop since the last launch/continue). The reading is  *)
 (* an instant p of the run (runner read lock). Every breakpoint installed before it is in force for every instruction    *)
@@ -104,7 +124,7 @@ Probe(r, R, t, o) ==
                 t1 == [t EXCEPT !.resume = j, !.exempt = TRUE, !.stable = t.bps] IN
             IF <<R[j].a, R[j].x, R[j].y>> # <<o.a, o.x, o.y>> THEN Viol(r, t, "registers of the running machine are not those of the instant CYC names")
             ELSE IF j < t.resume THEN Viol(r, t, "running machine is behind the point it was resumed from")
-            ELSE IF sk # {} THEN Viol(r, t1, "NoSkippedBreakpoint: executed run index " \o ToString(CHOOSE k \in sk : TRUE) \o " at a breakpoint line without stopping")
+            ELSE IF sk # {} THEN SkipV(r, R, t, t1, sk, "an instruction at a breakpoint line was executed without stopping")
             ELSE IF t.bps # {} /\ j > 1 /\ j < Len(R) /\ \E k \in (j + 1)..(Len(R) - 1) : LineOf(r, R, k) \in t.bps
                  THEN [t1 EXCEPT !.out = Append(@, V(r.id, "info", "ProbeAnchored", "1"))]     \* non-vacuity: the breakpoint line is still ahead
             ELSE t1
@@ -120,7 +140,8 @@ EvalMem(r, t, o) ==
   ELSE Viol(r, t, "evaluate ram" \o (IF o.width = 2 THEN "16" ELSE "") \o "(" \o ToString(o.addr) \o ") " \o (IF o.answered THEN "gave a wrong value or an error" ELSE "was never answered"))
 
 Obs1(r, R, t, o) ==
-  CASE o.k = "setbps" -> [t EXCEPT !.bps = SeqSet(o.lines), !.stable = IF t.mode = "running" THEN @ \cap SeqSet(o.lines) ELSE SeqSet(o.lines)]
+  CASE o.k = "setbps" -> LET nb == {ln \in t.bps : FileOfLine(ln) # o.file} \cup SeqSet(o.lines) IN      \* replaces the breakpoints of that file only
+                         [t EXCEPT !.bps = nb, !.stable = IF t.mode = "running" THEN @ \cap nb ELSE nb, !.files = @ \cup {o.file}, !.lastFile = o.file]
     [] o.k = "launch" -> [t EXCEPT !.mode = "running", !.resume = 1, !.exempt = FALSE, !.stable = t.bps, !.credit = FALSE]
     [] o.k = "req" ->
          (CASE o.c = "pause" -> IF t.mode = "running" THEN [t EXCEPT !.credit = TRUE] ELSE t
@@ -135,25 +156,31 @@ Obs1(r, R, t, o) ==
          (CASE o.e = "stopped" ->
                  (CASE t.mode = "running" -> [t EXCEPT !.mode = "stopped", !.first = TRUE, !.cause = IF t.credit THEN "pause" ELSE "bp",
                                                         !.inflight = IF t.credit THEN 1 ELSE 0]
-                    [] t.mode = "stepping" -> [t EXCEPT !.mode = "stopped", !.first = TRUE, !.cause = "step"]
+                    [] t.mode = "stepping" ->
+                         IF t.pend.from = Len(R) /\ t.pend.from > 0 /\ AtBrk(r.prog, R[Len(R)])
+                         THEN (* the uninterrupted run ends at the instruction this step started from (brk / failing assertion): the step must end the test *)
+                              Devi(r, [t EXCEPT !.mode = "terminated"], "StepSwallowsTestEnd", "a " \o t.pend.kind \o " at the end of the test (" \o r.prog[R[Len(R)].i].op \o ") reported a stop instead of ending the test")
+                         ELSE [t EXCEPT !.mode = "stopped", !.first = TRUE, !.cause = "step"]
                     [] OTHER -> t)
             [] o.e = "terminated" ->
                  IF t.mode = "running"
                  THEN LET sk == Skipped(r, R, t, Len(R))
                           t1 == [t EXCEPT !.mode = "terminated"] IN
-                      IF sk # {} THEN Viol(r, t1, "NoSkippedBreakpoint: the test ran to its end over a breakpoint at run index " \o ToString(CHOOSE k \in sk : TRUE)) ELSE t1
+                      IF sk # {} THEN SkipV(r, R, t, t1, sk, "the test ran to its end over a breakpoint") ELSE t1
                  ELSE [t EXCEPT !.mode = "terminated"]
             [] OTHER -> t)
     [] o.k = "snap" -> Snap(r, R, t, o)
     [] o.k = "probe" -> Probe(r, R, t, o)
     [] o.k = "evalmem" -> EvalMem(r, t, o)
+    [] o.k = "alive" -> IF o.answered THEN t
+                        ELSE IF o.after \in Malformed THEN Devi(r, [t EXCEPT !.mode = "terminated"], "MalformedRequestKillsDebugThread", "after the request `" \o o.after \o "` the adapter answers nothing any more")
+                        ELSE Viol(r, [t EXCEPT !.mode = "terminated"], "the adapter stopped answering after `" \o o.after \o "`")
     [] OTHER -> t
 
 RECURSIVE Fold1(_, _, _, _)
 Fold1(r, R, t, n) == IF n > Len(r.obs) THEN t ELSE Fold1(r, R, Obs1(r, R, t, r.obs[n]), n + 1)
 
 (* ======================================= tier 2 ======================================= *)
-Addr(r, k) == AddrOf(r.prog, r.base, k)
 IdxOfAddr(r, a) == IF \E k \in 1..Len(r.prog) : Addr(r, k) = a THEN CHOOSE k \in 1..Len(r.prog) : Addr(r, k) = a ELSE 0
 (* r.devs: the deviations pinned for the tree under test (open findings); the hook log is replayed under that reading *)
 DevsOf(r) == {r.devs[k] : k \in 1..Len(r.devs)}
@@ -196,7 +223,7 @@ Ev2(r, R, h, e, n) ==
          ELSE Rej(h, n, "unknown state")
     [] e.ev = "s_exec" ->
          IF a.sp # "idle" \/ e.pc # pcNow THEN Rej(h, n, "s_exec: not enabled or pc differs")
-         ELSE LET a1 == SExec(r.prog, R, a, e.kind, DevsOf(r)) IN
+         ELSE LET a1 == IF SEnds(R, a, DevsOf(r)) THEN SEnd(a) ELSE SExec(r.prog, R, a, e.kind, DevsOf(r)) IN
               IF e.pc1 # Addr(r, Pc(R, a1.ix)) \/ e.cyc # R[a1.ix].cyc THEN Rej(h, n, "s_exec(" \o e.kind \o "): target differs from the runner model")
               ELSE [h EXCEPT !.a = a1]
     [] e.ev = "stop" -> [h EXCEPT !.live = FALSE]
